@@ -74,6 +74,10 @@ class Tdmd(ApiImmut):
         sc = max(float(np.max(np.abs(w))) if w.size else 0.0, 1e-300)
         tol = 1e-8 * sc * max(1.0, condW) * max(1.0, cond * 1e-2)
         ok, worst = match_multiset(np.asarray(lam).reshape(-1), w, tol)
+        if ok and worst is not None and np.isfinite(worst):
+            # achieved accuracy in units of eps * cond(X) * cond(W) * |lambda|_max (evidence, and the calibration of TOL_K below)
+            r_ = float(worst) / max(2.220446049250313e-16 * cond * max(1.0, condW) * sc, 1e-300)
+            c.events['tdmd_eigenvalue_accuracy_in_eps_cond:1e%+d' % int(np.floor(np.log10(max(r_, 1e-3))))] += 1
         tags = ['thr' if thr else 'nothr', 'rank_deficient' if int(np.sum(keep)) < min(X.shape) else 'full_rank']
         c.check(self.api, 'eigenvalues_equal_matrix_dmd', ok, tags, {'got': np.asarray(lam), 'want': w, 'worst': worst, 'rank': int(np.sum(keep)), 'dims': list(x.row_dims)}, prop=P)
         lam_a = np.asarray(lam).reshape(-1)
